@@ -88,6 +88,8 @@ FIXES.append(('OUT &h3CF or &h3C5 in a text mode', ['C01'], 'internal:AttributeE
 FIXES.append(('LPT2: or LPT3: with nothing attached', ['C01'], 'internal:AttributeError@basic/devices/parports.py:do_print'))
 FIXES.append(('octal literal interrupted by a blank', ['C01'], 'internal:ValueError@basic/values/numbers.py:from_oct'))
 FIXES.append(('element of any array but the last one read the last array', ['C42', 'C33'], 'play:varptr-array-element-reference-rejected'))
+FIXES.append(('a failed CHAIN left string garbage collection switched off', ['C10'], 'oss:raised-although-space-sufficient'))
+FIXES.append(('a failed CHAIN left string garbage collection switched off', ['C23'], 'chain-fails:string-churn-after-failed-chain-does-not-complete'))
 FIXES.append(('RESUME NEXT re-ran the failing statement when blanks preceded its colon', ['C21', 'C22'], 'diverge-after:resume:next'))
 FIXES.append(('POINT beyond the screen edge with a relative VIEW', ['C01'], 'internal:IndexError@basic/base/bytematrix.py:__getitem__'))
 FIXES.append(('set_variable of a new string array could lose elements', ['C43'], 'pressure:new-string-array:internal:KeyError@basic/values/strings.py:_retrieve'))
